@@ -37,6 +37,7 @@ type Harness struct {
 	Consts   [][3]string // file (repo-relative), const name, new value  (scaled constants)
 	Native   bool
 	Inverse  [][2]string // lemma f(g(x)) == x: {f, g}
+	Opaque   []string    // formatting functions: result "?" when an argument is symbolic
 	Notes    []string
 }
 
@@ -59,6 +60,7 @@ type Config struct {
 	inverseF       map[string]string // f -> g
 	inverseG       map[string]string // g -> f
 	lemmas         []string
+	opaque         map[string]bool
 }
 
 func (c *Config) skipInit(path string) bool { return c.skipInitPkgs[path] }
@@ -139,6 +141,8 @@ func parseHarness(id string, dir string) (*Harness, error) {
 				h.Reach = append(h.Reach, fields[1:]...)
 			case "const":
 				h.Consts = append(h.Consts, [3]string{fields[1], fields[2], fields[3]})
+			case "opaque":
+				h.Opaque = append(h.Opaque, strings.Join(fields[1:], " "))
 			case "inverse":
 				h.Inverse = append(h.Inverse, [2]string{fields[1], fields[2]})
 			case "native":
@@ -287,6 +291,11 @@ func loadProgram(h *Harness, cfg *Config) error {
 		if e.Fn == nil {
 			return fmt.Errorf("entry function %s not found", e.Name)
 		}
+	}
+	cfg.opaque = map[string]bool{}
+	for _, o := range h.Opaque {
+		cfg.opaque[o] = true
+		cfg.stubNames = append(cfg.stubNames, o+" -> \"?\" when called on symbolic data (formatting only)")
 	}
 	cfg.inverseF = map[string]string{}
 	cfg.inverseG = map[string]string{}
